@@ -264,6 +264,43 @@ Theorem closest_level_thr_one_per_gap :
     closest_level_thr g ths rn rd = if t * rd <? rn then k - 1 else k.
 Proof. exact Grid_proofs.closest_level_thr_one_per_gap. Qed.
 
+(* Thresholds that never apply.  never_hit th prev rs: on none of the levels rs (previous level resolution prev) the
+   current threshold th satisfies `threshold and prev_l_res > threshold >= l_res`; such a threshold is never consumed, so
+   the thresholds behind it never become current.  Complement of closest_level_thr_general: if the threshold that is current
+   after levels 0 .. k-1 (all coarser than the request; thresholds hit there are consumed without effect) is never hit from
+   level k on, the level is the one of closest_level (closest_level_spec applies).  k = 0: the threshold the loop starts
+   with is never hit. *)
+Theorem closest_level_thr_general_unhit :
+  forall g ths rn rd k,
+    0 < rd -> 0 <= k <= levels g ->
+    (forall j, 0 <= j < k -> rn < res_at g j * rd) ->
+    let '(th0, ths0) := thr_init (res_at g 0) (rev ths) in
+    let '(th, _, prev) := thr_pass (ress g) (res_at g 0) th0 ths0 (Z.to_nat k) in
+    never_hit th prev (skipn (Z.to_nat k) (ress g)) ->
+    closest_level_thr g ths rn rd = closest_level g rn rd.
+Proof. exact Grid_proofs.closest_level_thr_general_unhit. Qed.
+
+(* Closed forms: thresholds that are all finer than every level, or all on / above every level (in particular above the
+   first level: the skip loop stops at the last of them), do not change the level choice, for every request. *)
+Theorem closest_level_thr_below_all_levels :
+  forall g ths rn rd,
+    (forall t r, In t ths -> In r (ress g) -> t < r) ->
+    closest_level_thr g ths rn rd = closest_level g rn rd.
+Proof. exact Grid_proofs.closest_level_thr_below. Qed.
+
+Theorem closest_level_thr_above_all_levels :
+  forall g ths rn rd,
+    (forall t r, In t ths -> In r (ress g) -> r <= t) ->
+    closest_level_thr g ths rn rd = closest_level g rn rd.
+Proof. exact Grid_proofs.closest_level_thr_above. Qed.
+
+(* A threshold that becomes current when it is already on or above the previous level resolution is stuck (this is what
+   happens to the second of two thresholds in one gap, Grid_proofs.ex_thresholds_same_gap): it is never hit on levels that
+   are not above it. *)
+Theorem threshold_stuck :
+  forall rs t prev, prev <= t -> (forall r, In r rs -> r <= t) -> never_hit (Some t) prev rs.
+Proof. exact Grid_proofs.never_hit_stuck. Qed.
+
 (* get_affected_bbox_and_level (request in the grid SRS): a level is returned exactly when the rectangle intersects
    the grid bbox and the requested resolution rn/rd = min(w/sx, h/sy) does not exceed res_0 * max_shrink_factor
    (otherwise NoTiles); the level is closest_level of that resolution. *)
